@@ -680,6 +680,10 @@ func d4(c *Ctx, isSeq bool, m mxj.Map, ms mxj.MapSeq, prefix, indent string, out
 func runC16Maps(c *Ctx, pols []*iterPolicy, prefix, indent string) *Violation {
 	t := c.T
 	n := 1 + t.Small(4)
+	if t.Draw(8) == 7 {
+		n = 5 + t.Small(12) // now and then a long list (anything sized by a small constant overflows)
+		c.C["probe.long_maps_lists"]++
+	}
 	var mvs mxj.Maps
 	for i := 0; i < n; i++ {
 		var m mxj.Map
